@@ -25,8 +25,10 @@ def install():
         raise RuntimeError('recorders are only installed when TATSU_VERIF=1')
     from tatsu.contexts import core
     from tatsu.contexts.tracing import NullTracer
-    from .frompeg import Unsupported, project
+    from .frompeg import Unsupported, boot_rules, project
     from .recorder import proj
+    if os.environ.get('VERIF_TRACE_BOOT', '1') == '1':
+        boot_rules()          # compiled before any recorder is installed
 
     class Rec(NullTracer):
         def __init__(self, ctx):
@@ -114,6 +116,21 @@ def install():
         rec.keep.append(res)                            # keep action results alive: identities are part of the trace
         return res
     _engine.ParserEngine.semantics_call = semantics_call
+    orig_const = _engine.ParserEngine.constant
+
+    def constant(self, literal, capture=True):
+        rec = getattr(self, 'tracer', None)
+        if not isinstance(rec, Rec) or rec.skip is not None or not isinstance(literal, str):
+            return orig_const(self, literal, capture)
+        try:
+            res = orig_const(self, literal, capture)
+        except FailedSemantics:
+            rec.events.append({'ev': 'const', 'pos': self.pos, 'ok': False})
+            raise
+        rec.events.append({'ev': 'const', 'pos': self.pos, 'ok': True, 'v': proj(res)})
+        return res
+    _engine.ParserEngine.constant = constant
+    _engine.ParserEngine._constant = constant          # the alias generated parsers call
 
     orig = core.ParserCore.update_tracer
 
